@@ -1117,6 +1117,9 @@ def iterate(interp, v, lazy=False):
         raise Unsupported('iteration over a range of symbolic length '
                           'without invariant')
     if isinstance(v, GeneratorVal):
+        if lazy:
+            from . import gen
+            return gen.lazy_items(interp, v)
         return generator_items(interp, v)
     if isinstance(v, Obj):
         m, _ = v.cls.lookup('__iter__')
